@@ -17,8 +17,8 @@ The sampler's answer and the stress reliever's answer are parameters of the oper
 payload is modelled by the fields Refinery can write (`types.Payload.Set`): `int64` metadata
 fields read back as absent when they hold 0, string metadata fields when they hold "".
 The hostname is captured once (`Start`) and never re-read; everything else is read from the
-configuration at the moment of use.  The decision record stores `uint32(rate)` and `uint32`
-counters.  Eviction of decision records is not modelled (the harness sizes the caches so that it
+configuration at the moment of use.  The decision record stores the rate at full `uint` width and
+`uint32` counters.  Eviction of decision records is not modelled (the harness sizes the caches so that it
 does not happen).
 -/
 namespace Refinery.Model.Decorate
@@ -98,7 +98,7 @@ structure Cfg where
 
 /-- `keptTraceCacheEntry`. -/
 structure Rec where
-  rate32 : Nat
+  rate : Nat
   reason : String
   desc : Nat
   events : Nat
@@ -192,7 +192,7 @@ def fwdLate (cfg : Cfg) (host : String) (kept : Option Rec) (sp : Span) : Option
   match kept with
   | none => if cfg.dry then some { sp with fields := addAttrs f cfg.attrs } else none
   | some r =>
-    let sp := applyMerge { sp with fields := f } r.rate32 cfg.dry
+    let sp := applyMerge { sp with fields := f } r.rate cfg.dry
     let f := if sp.root then setRootCounts cfg sp.fields r.desc r.events r.links r.spans else sp.fields
     some { sp with fields := addAttrs f cfg.attrs }
 
@@ -254,7 +254,7 @@ def checkSpan (t : TraceSt) (k : Kind) : Option (Option Rec) × TraceSt :=
 
 /-- `NewKeptTraceCacheEntry` -/
 def mkRec (rate : Nat) (reason : String) (spans : List Span) : Rec :=
-  { rate32 := trunc32 rate, reason := reason, desc := spans.length % two32,
+  { rate := rate, reason := reason, desc := spans.length % two32,
     events := countKind .event spans % two32, links := countKind .link spans % two32,
     spans := countKind .span spans % two32 }
 
@@ -307,7 +307,7 @@ def step (s : St) : Op → St × Out
     let t := getT s tid
     match checkSpan t sp.kind, sr with
     | (some none, t'), none => (putT s tid t', .stressDrop)
-    | (some (some r), t'), none => (putT s tid t', .fwd (fwdStress s.cfg s.host r.rate32 r.reason sp))
+    | (some (some r), t'), none => (putT s tid t', .fwd (fwdStress s.cfg s.host r.rate r.reason sp))
     | (some _, _), some _ => (s, .bad)
     | (none, _), none => (s, .bad)
     | (none, _), some (rate, keep, reason) =>
